@@ -10,6 +10,7 @@ open Ft
   points   [[c …] …] coordinate prefixes queried with getFiber / getSubTree
   impl     {"outcome": "ok"|"rejected",
             "state": tree snapshot of the tensor, "shape": [n …] (tensor.getShape()),
+            "tformat": ["C"|"U" …] the tensor's own rank formats (tags only: the code does not read them),
             "ranklists": [[[path|null, len] …] …]  (Rank.getFibers(), identity as path),
             "filled": {"root": dict, "ranks": [dict …]},
             "root": n, "ranks": [n …], "tensor": n, "tensor2": n,
@@ -165,7 +166,15 @@ def handleC18 (j : Json) : Except String Verdict := do
     let failed := (checks.filter (fun c => !c.2)).map (·.1)
     let spec := failed.isEmpty
     let fmts := String.join (levelsTop.map fmtStr)
-    let tags := [s!"fmt:{fmts}", s!"depth:{nR}", if mirror then "mirror" else "MIRROR_BROKEN"] ++ mtags ++
+    -- the tensor's own rank formats (Tensor.setFormat): state the footprint code does not read
+    let tformat : List String := match field impl "tformat" with
+      | .ok a => (a.getArr?.toOption.getD #[]).toList.map (fun x => x.getStr?.toOption.getD "C")
+      | .error _ => []
+    let fmtOmitted := ranksGiven.map (fun e => (lookup (e.getD []) "format").isNone)
+    let ttags := (if tformat.any (· == "U") then ["tensor-rank-U"] else []) ++
+      (if (tformat.zip fmtOmitted).any (fun p => p.1 == "U" && p.2) then ["tensor-rank-U+format-omitted"] else []) ++
+      (if (tformat.zip levelsTop).any (fun p => p.1 != fmtStr p.2) then ["tensor-format≠spec-format"] else [])
+    let tags := [s!"fmt:{fmts}", s!"depth:{nR}", if mirror then "mirror" else "MIRROR_BROKEN"] ++ mtags ++ ttags ++
       (treeTags dflt lv D state).eraseDups ++
       (if points.any (fun p => p.length == nR) then ["full-point"] else []) ++
       (if points.any (fun p => p.length < nR && p.length > 0 &&
